@@ -16,7 +16,7 @@ export PV_REPO=/tmp/mx/repo PV_VERIF=/tmp/mx/verif
 for d in seeded/*-r2v*; do
   sid=$(basename "$d"); id=${sid%%-*}
   git -C /tmp/mx/repo checkout -q -- . ; git -C /tmp/mx/repo clean -fdq src
-  if ! git -C /tmp/mx/repo apply "$d/patch.diff" 2>/dev/null; then echo "$sid does-not-apply" >> "$out"; continue; fi
+  if ! git -C /tmp/mx/repo apply "/tmp/mx/verif/$d/patch.diff" 2>/dev/null; then echo "$sid does-not-apply" >> "$out"; continue; fi
   ./check "$id" quick > /tmp/mx/out.txt 2>&1; rc=$?
   echo "$sid $id exit=$rc $(grep -m1 '^violation:' /tmp/mx/out.txt | cut -c1-140)" >> "$out"
 done
